@@ -705,3 +705,47 @@ benign("B-accum-concat-tuple", ["C01"], (OPS, "            result = nxp.concat([
 # unrelated edits next to known findings: the KNOWN-FINDING keys must still match (no re-report)
 benign("B-store-blockwise-kwargs-reordered", ["C05", "C11", "C10"], (OPS, "                dtype=source.dtype,\n                align_arrays=False,\n                target_store=target,\n", "                align_arrays=False,\n                dtype=source.dtype,\n                target_store=target,\n"))
 benign("B-store-region-local-renamed", ["C05", "C11", "C13"], (OPS, "        out = general_blockwise(\n            identity,\n            back_key_function,\n            source,\n            shapes=[shape],", "        stored = general_blockwise(\n            identity,\n            back_key_function,\n            source,\n            shapes=[shape],"), (OPS, "        assert isinstance(out, Array)  # single output\n        return out\n\n\ndef to_zarr(", "        assert isinstance(stored, Array)  # single output\n        return stored\n\n\ndef to_zarr("))
+# seeded round 2 (C08-3): the superseded check must guard the raise as well as the yield
+mutant(
+    "M120-superseded-check-after-exception-test",
+    ["C08"],
+    "MAP-ONCE-1",
+    (ASYNC, "            if task in superseded:\n                # the twin finished in the same round and was handled first\n                continue\n", ""),
+    (ASYNC, "                raise task.exception()  # type: ignore\n            end_times[task] = time.monotonic()", "                raise task.exception()  # type: ignore\n            if task in superseded:\n                continue\n            end_times[task] = time.monotonic()"),
+)
+mutant(
+    "M121-superseded-check-only-for-success",
+    ["C08"],
+    "MAP-ONCE-1",
+    (ASYNC, "            if task in superseded:\n                # the twin finished in the same round and was handled first\n                continue\n", ""),
+    (ASYNC, "            if task.exception():\n                # if the task has a backup that is not done", "            if not task.exception() and task in superseded:\n                continue\n            if task.exception():\n                # if the task has a backup that is not done"),
+)
+benign("B-superseded-add-before-cancel", ["C08", "C13"], (ASYNC, "                    backup.cancel()\n                    superseded.add(backup)\n", "                    superseded.add(backup)\n                    backup.cancel()\n"))
+# seeded round 2 (C12-4): declared metadata read from a stale alias of a rebound operand
+UTILF = "cubed/array_api/utility_functions.py"
+mutant(
+    "M122-diff-dtype-alias-before-concat",
+    ["C12"],
+    "META-STALE-1",
+    (UTILF, "    axis = validate_axis(axis, x.ndim)\n\n    if n < 0:\n        raise ValueError(f\"order of diff", "    axis = validate_axis(axis, x.ndim)\n    dtype = x.dtype\n\n    if n < 0:\n        raise ValueError(f\"order of diff"),
+    (UTILF, "        x,\n        dtype=x.dtype,\n        chunks=chunks,\n        depth=depth,", "        x,\n        dtype=dtype,\n        chunks=chunks,\n        depth=depth,"),
+)
+mutant(
+    "M123-nextafter-dtype-before-promotion",
+    ["C12"],
+    "META-STALE-1",
+    (ELEM, "def nextafter(x1, x2, /):\n    x1, x2 = _promote_scalars(x1, x2, \"nextafter\")", "def nextafter(x1, x2, /):\n    dtype = x1.dtype\n    x1, x2 = _promote_scalars(x1, x2, \"nextafter\")"),
+    (ELEM, "    return elemwise(nxp.nextafter, x1, x2, dtype=x1.dtype)", "    return elemwise(nxp.nextafter, x1, x2, dtype=dtype)"),
+)
+benign(
+    "B-store-dtype-alias-across-rechunk",
+    ["C12", "C11"],
+    (OPS, "    identity = lambda a: a\n    blockwise_kwargs = blockwise_kwargs or {}\n    if region is None or all(r == slice(None) for r in region):", "    identity = lambda a: a\n    blockwise_kwargs = blockwise_kwargs or {}\n    src_dtype = source.dtype\n    if region is None or all(r == slice(None) for r in region):"),
+    (OPS, "                source,\n                ind,\n                dtype=source.dtype,\n", "                source,\n                ind,\n                dtype=src_dtype,\n"),
+)
+benign(
+    "B-diff-dtype-alias-after-concat",
+    ["C12"],
+    (UTILF, "    shape = tuple(s - n if i == axis else s for i, s in enumerate(x.shape))\n    chunks = normalize_chunks(x.chunksize, shape, dtype=x.dtype)", "    shape = tuple(s - n if i == axis else s for i, s in enumerate(x.shape))\n    dtype = x.dtype\n    chunks = normalize_chunks(x.chunksize, shape, dtype=dtype)"),
+    (UTILF, "        x,\n        dtype=x.dtype,\n        chunks=chunks,\n        depth=depth,", "        x,\n        dtype=dtype,\n        chunks=chunks,\n        depth=depth,"),
+)
